@@ -12,6 +12,8 @@ Definition hmap_eqb (a b : hmap) : bool :=
 Definition hide_xff (m : hmap) : hmap :=
   map (fun kv => if str_eqb (fst kv) XFF then (fst kv, map (fun _ => "") (snd kv)) else kv) m.
 
+Definition pair_eqb (a b : string * string) : bool := str_eqb (fst a) (fst b) && str_eqb (snd a) (snd b).
+
 Inductive case :=
 (* one call of a backend's HTTPRequestExecutor: adapter, the four lists as written in the
    configuration, the parsed static query of url_pattern, the client's header lines and
@@ -20,6 +22,21 @@ Inductive case :=
 | COut (a : adapter) (eph epq beh beq : list string) (static : list (string * string))
        (lines qs : list (string * string)) (host : string) (ip : option string) (ua : string)
        (oh oq : hmap)
+(* the same call at the wire level: the query text of url_pattern, the RawQuery of the URL the
+   executor was handed and what url.ParseQuery makes of it *)
+| CWire (a : adapter) (eph epq beh beq : list string) (sraw : string) (static : list (string * string))
+        (lines qs : list (string * string)) (host ua : string) (raw : string) (oq : hmap)
+(* a GraphQL backend: as COut, plus what the stage contributes (length of the generated body /
+   the operation's GET parameters) *)
+| CGql (g : gql) (a : adapter) (eph epq beh beq : list string) (static : list (string * string))
+       (lines qs : list (string * string)) (host : string) (ip : option string) (ua : string)
+       (oh oq : hmap)
+(* url.QueryEscape s = e *)
+| CEscape (s e : string)
+(* url.QueryUnescape s = o (None: error) *)
+| CUnescape (s : string) (o : option string)
+(* url.ParseQuery raw = m (errors ignored, as url.URL.Query does) *)
+| CParse (raw : string) (m : hmap)
 (* textproto.CanonicalMIMEHeaderKey s = expected (validates the model of the std-lib function) *)
 | CCanon (s expected : string).
 
@@ -34,6 +51,28 @@ Definition check_case (c : case) : bool * bool :=
       let m := outgoing cfg req in
       let hid := match ip with Some _ => (fun x => x) | None => hide_xff end in
       (hmap_eqb (hid (o_headers m)) (hid oh) && hmap_eqb (o_query m) oq, spec_b cfg req o)
+  | CWire a eph epq beh beq sraw static lines qs host ua raw oq =>
+      let cfg := {| c_adapter := a; c_ep_headers := eph; c_ep_query := epq;
+                    c_be_headers := beh; c_be_query := beq; c_static := static |} in
+      let req := {| r_lines := lines; r_query := qs; r_host := host; r_ip := ""; r_ua := ua |} in
+      (* the url_pattern text parses to the static pairs the harness got from net/url; the real
+         RawQuery parses (by the model) to what url.ParseQuery found; the model's RawQuery is the
+         real one up to the order of the '&'-separated pieces (Values.Encode sorts keys) *)
+      (list_eqb pair_eqb (parse_query sraw) static &&
+       hmap_eqb (group (parse_query raw)) oq &&
+       same_mset_str (split_on amp (outgoing_raw cfg sraw req)) (split_on amp raw), true)
+  | CGql g a eph epq beh beq static lines qs host ip ua oh oq =>
+      let cfg := {| c_adapter := a; c_ep_headers := eph; c_ep_query := epq;
+                    c_be_headers := beh; c_be_query := beq; c_static := static |} in
+      let req := {| r_lines := lines; r_query := qs; r_host := host;
+                    r_ip := match ip with Some i => i | None => "" end; r_ua := ua |} in
+      let o := {| o_headers := oh; o_query := oq |} in
+      let m := outgoing_gql g cfg req in
+      let hid := match ip with Some _ => (fun x => x) | None => hide_xff end in
+      (hmap_eqb (hid (o_headers m)) (hid oh) && hmap_eqb (o_query m) oq, spec_gql_b g cfg req o)
+  | CEscape s e => (str_eqb (query_escape s) e && opt_eqb str_eqb (query_unescape e) (Some s), true)
+  | CUnescape s o => (opt_eqb str_eqb (query_unescape s) o, true)
+  | CParse raw m => (hmap_eqb (group (parse_query raw)) m, true)
   | CCanon s e => (str_eqb (canon s) e, true)
   end.
 
